@@ -85,6 +85,23 @@ func cloneMsg(m sdk.Msg) sdk.Msg {
 	return n
 }
 
+// boolVariants: the message with each of its top-level boolean fields flipped (a handler whose guard
+// looks at such a field may let the other value through).
+func boolVariants(m sdk.Msg) (names []string, out []sdk.Msg) {
+	t := reflect.TypeOf(m).Elem()
+	for i := 0; i < t.NumField(); i++ {
+		if t.Field(i).Type.Kind() != reflect.Bool || t.Field(i).PkgPath != "" {
+			continue
+		}
+		n := cloneMsg(m)
+		fv := reflect.ValueOf(n).Elem().Field(i)
+		fv.SetBool(!fv.Bool())
+		names = append(names, fmt.Sprintf("%s=%v", t.Field(i).Name, fv.Bool()))
+		out = append(out, n)
+	}
+	return
+}
+
 // category of every Elys message type that is not auto-classified (signer field "authority").
 // gov  = must be refused from anyone but the governance authority
 // owner= names a resource (order / position) that belongs to an account; refused from others
@@ -457,6 +474,17 @@ func RunC17(tier string) int {
 				add(Finding{Clause: "owner_scoped_message_accepted_from_non_owner", Culprit: "direct", Disc: "type=" + u, Detail: fmt.Sprintf("%s sent by a non-owner naming another account's resource was accepted; stores changed: %v", u, diff)})
 			}
 			cases = append(cases, c17Case{u, "direct", "non_owner", "names_foreign_resource", res})
+			vn, vm := boolVariants(m)
+			for i, v := range vm {
+				err, diff := direct(v)
+				transitions++
+				res := "rejected"
+				if err == nil && len(diff) > 0 {
+					res = "ACCEPTED"
+					add(Finding{Clause: "owner_scoped_message_accepted_from_non_owner", Culprit: "direct", Disc: "type=" + u + ",variant=" + vn[i], Detail: fmt.Sprintf("%s with %s sent by a non-owner naming another account's resource was accepted and changed stores: %v", u, vn[i], diff)})
+				}
+				cases = append(cases, c17Case{u, "direct", "non_owner", "field_variant:" + vn[i], res})
+			}
 		case "role":
 			nRole++
 			m := role[u]
@@ -472,6 +500,17 @@ func RunC17(tier string) int {
 				add(Finding{Clause: "role_gated_message_accepted_without_role", Culprit: "direct", Disc: "type=" + u, Detail: fmt.Sprintf("%s from an account without the role was accepted; stores changed: %v", u, diff)})
 			}
 			cases = append(cases, c17Case{u, "direct", "no_role", "", res})
+			vn, vm := boolVariants(m)
+			for i, v := range vm {
+				err, diff := direct(v)
+				transitions++
+				res := "rejected"
+				if err == nil && len(diff) > 0 {
+					res = "ACCEPTED"
+					add(Finding{Clause: "role_gated_message_accepted_without_role", Culprit: "direct", Disc: "type=" + u + ",variant=" + vn[i], Detail: fmt.Sprintf("%s with %s from an account without the role was accepted and changed stores: %v", u, vn[i], diff)})
+				}
+				cases = append(cases, c17Case{u, "direct", "no_role", "field_variant:" + vn[i], res})
+			}
 		}
 	}
 
